@@ -41,6 +41,14 @@ use std::sync::mpsc;
 use std::sync::Arc;
 use std::time::Duration;
 
+/// runs `f` in a thread of its own (64 MiB stack); `None` when it has not answered after `secs` seconds (the
+/// thread is abandoned: it ends with the process) or died
+pub fn with_timeout<T: Send + 'static>(secs: u64, f: impl FnOnce() -> T + Send + 'static) -> Option<T> {
+    let (tx, rx) = mpsc::channel();
+    std::thread::Builder::new().stack_size(64 << 20).spawn(move || { let _ = tx.send(f()); }).ok()?;
+    rx.recv_timeout(Duration::from_secs(secs)).ok()
+}
+
 fn guard(f: impl FnOnce() -> String) -> String {
     catch_unwind(AssertUnwindSafe(f)).unwrap_or_else(|_| "panic".into())
 }
@@ -535,9 +543,17 @@ fn parse_mutated_stream(run: &mut Runner, seed: u64, n: u64) -> Stream {
 fn corpus_stream(run: &mut Runner, seed: u64, n: u64) -> Stream {
     let mut st = Stream::new("c01.parse.corpus", true);
     let mut files: Vec<(String, Vec<u8>)> = vec![];
+    let mut hung = false;
     for (name, b) in corpus::fixture_files() {
         if b.len() <= 400_000 {
-            if let Some(nb) = corpus::normalise(&b) { files.push((format!("{}(norm)", name), nb)); }
+            if !hung {
+                let b2 = b.clone();
+                match with_timeout(30, move || corpus::normalise(&b2)) {
+                    Some(Some(nb)) => files.push((format!("{}(norm)", name), nb)),
+                    Some(None) => {}
+                    None => hung = true, // reported by the walker oracle (c01.rs); raw slices only from here on
+                }
+            }
             files.push((name, b));
         }
     }
